@@ -64,6 +64,9 @@ type SXGSpec struct {
 	Expires     time.Time
 	ValidityURL string
 	ID          *Identity
+	// Shared, when non-nil, is a Signer object that is reused for this exchange (its fields are updated first),
+	// the way a long-running signing service reuses one signer for many exchanges.
+	Shared *signedexchange.Signer
 }
 
 // Build signs the exchange with the repository's signer.
@@ -86,6 +89,10 @@ func (s *SXGSpec) Build() (*signedexchange.Exchange, *signedexchange.Signer, err
 		return nil, nil, err
 	}
 	signer := &signedexchange.Signer{Date: s.Date, Expires: s.Expires, Certs: s.ID.Certs, CertUrl: cu, ValidityUrl: vu, PrivKey: s.ID.Key}
+	if s.Shared != nil {
+		signer = s.Shared
+		signer.Date, signer.Expires, signer.Certs, signer.CertUrl, signer.ValidityUrl, signer.PrivKey = s.Date, s.Expires, s.ID.Certs, cu, vu, s.ID.Key
+	}
 	if err := e.AddSignatureHeader(signer); err != nil {
 		return nil, nil, err
 	}
